@@ -2,11 +2,16 @@
 from scoda.misc.music_theory import Key, CircleOfFifths, MusicMapping, Note
 
 ENGINE = "E1-sweep"
+FRESH_WORKERS = True     # every unit runs in a newly forked child: the tables and any cache start from the import state
 RULE = ("complete enumeration: 15 keys x every interval in [-36,36]; all interval pairs in [-13,13] per key; "
-        "all 128x128 pitch pairs; 128 x [-12,12] for from_distance. distinct = distinct argument tuples; "
-        "non-trivial = all but interval 0 / a == b")
+        "all 128x128 pitch pairs; 128 x [-12,12] for from_distance - repeated after each of 9 call histories (preludes) "
+        "executed first in a fresh process: nothing, key guessing on a sequence, from_distance before anything else "
+        "(all / even pitches only), get_position first, distances in reverse order first, transposing sequences and "
+        "bars with keys, tokeniser annotations, repeated transposition chains; distinct = distinct (prelude, argument "
+        "tuple); non-trivial = all but interval 0 / a == b")
 ASSUMPTIONS = ["tonic table and major-scale pattern of the oracle are written independently in this file"]
-REQUIRED_FLAGS = ["transpose_multiple_of_12", "transpose_negative", "enharmonic_key_transposed", "cof_tritone"]
+REQUIRED_FLAGS = ["transpose_multiple_of_12", "transpose_negative", "enharmonic_key_transposed", "cof_tritone"] + \
+                 ["prelude:" + x for x in ("none", "key_guess", "from_distance_first", "tokeniser_info")]
 
 TONIC = {"C": 0, "G": 7, "D": 2, "A": 9, "E": 4, "B": 11, "F#": 6, "C#": 1, "F": 5, "Bb": 10, "Eb": 3, "Ab": 8,
          "Db": 1, "Gb": 6, "Cb": 11}
@@ -19,14 +24,55 @@ def context(tier, seed):
                        "from_distance": [-12, 12]}}
 
 
+PRELUDES = ["none", "key_guess", "from_distance_first", "from_distance_even_first", "get_position_first",
+            "reverse_distance_first", "transpose_objects", "tokeniser_info", "transpose_chain"]
+
+
+def prelude(name):
+    """public calls made before the enumeration, in a fresh process"""
+    if name == "key_guess":
+        from mc import lib
+        for notes in ([(0, 6, 62, 0, 64), (6, 6, 66, 0, 64), (12, 6, 69, 0, 64)], [(0, 6, 61, 0, 64)], []):
+            lib.seq_abs(notes, [], 24).rel.get_key_signature_guess()
+            lib.seq_rel(notes, [("ks", 0, "Eb")], 24).rel.get_key_signature_guess()
+    elif name == "from_distance_first":
+        for a in range(128):
+            for d in range(-5, 7):
+                CircleOfFifths.from_distance(a, d)
+    elif name == "from_distance_even_first":
+        for a in range(0, 128, 2):
+            CircleOfFifths.from_distance(a, 1)
+    elif name == "get_position_first":
+        for a in range(127, -1, -1):
+            CircleOfFifths.get_position(a)
+    elif name == "reverse_distance_first":
+        for a in range(127, -1, -3):
+            for b in range(0, 128, 5):
+                CircleOfFifths.get_distance(b, a)
+    elif name == "transpose_objects":
+        from mc import lib
+        from scoda.elements.bar import Bar
+        for k in KEYS:
+            s_ = lib.seq_abs([(0, 12, 60, 0, 64)], [("ks", 0, k)], 96)
+            s_.transpose(5)
+            Bar(lib.seq_abs([(0, 12, 60, 0, 64)], [], 96), 4, 4, Key(k)).transpose(-7)
+    elif name == "tokeniser_info":
+        from scoda.tokenisation.notelike_tokenisation import MultiTrackLargeVocabularyNotelikeTokeniser as Tok
+        t = Tok(num_tracks=1)
+        t.get_info([x for x in t.dictionary if "pit_" in x][::7], flag_impute_values=True)
+    elif name == "transpose_chain":
+        for k in KEYS:
+            x = Key(k)
+            for i in (1, 5, 7, 12, -3, 0, 24, -25):
+                x = Key.transpose_key(x, i)
+
+
 def units(ctx):
-    for k in KEYS:
-        yield ("transpose", k)
-    for k in KEYS:
-        yield ("additive", k)
-    yield ("scales",)
-    for a in range(0, 128, 8):
-        yield ("cof", a)
+    for pr in PRELUDES:
+        yield ("transpose", pr)
+        yield ("additive", pr)
+        for a in range(0, 128, 32):
+            yield ("cof", pr, a)
 
 
 def fold(x):
@@ -100,22 +146,26 @@ def check_case(case, ctx):
     return out
 
 
-def run_unit(unit, acc, ctx):
+def cases_of(unit):
     kind = unit[0]
     if kind == "transpose":
-        cases = [("transpose", unit[1], i) for i in range(-36, 37)]
-    elif kind == "additive":
-        cases = [("additive", unit[1], i, j) for i in range(-13, 14) for j in range(-13, 14)]
-    elif kind == "scales":
-        cases = [("scale", k) for k in KEYS]
-    else:
-        a0 = unit[1]
-        cases = [("cof", a, b) for a in range(a0, a0 + 8) for b in range(128)]
-        cases += [("from", a, d) for a in range(a0, a0 + 8) for d in range(-12, 13)]
+        return [("transpose", k, i) for k in KEYS for i in range(-36, 37)] + [("scale", k) for k in KEYS]
+    if kind == "additive":
+        return [("additive", k, i, j) for k in KEYS for i in range(-13, 14) for j in range(-13, 14)]
+    a0 = unit[2]
+    return [("cof", a, b) for a in range(a0, a0 + 32) for b in range(128)] + \
+           [("from", a, d) for a in range(a0, a0 + 32) for d in range(-12, 13)]
+
+
+def run_unit(unit, acc, ctx):
+    pr = unit[1]
+    prelude(pr)
+    cases = cases_of(unit)
     for c in cases:
         trivial = (c[0] == "transpose" and c[2] == 0) or (c[0] == "cof" and c[1] == c[2]) or \
                   (c[0] == "additive" and c[2] == 0 and c[3] == 0) or (c[0] == "from" and c[2] == 0)
         acc.case(key=c, nontrivial=not trivial)
+        acc.flags["prelude:" + pr] += 1
         if c[0] == "transpose":
             if c[2] % 12 == 0:
                 acc.flag("transpose_multiple_of_12")
@@ -128,9 +178,20 @@ def run_unit(unit, acc, ctx):
         res = check_case(c, ctx)
         acc.outcomes.add(c[0] + ":" + ("ok" if not res else res[0][0]))
         for sig, detail in res:
-            acc.violation(sig, list(c), detail, {"kind": c[0], "interval_mod_12": (c[2] % 12) if c[0] == "transpose" else None})
-    acc.sample(list(cases[len(cases) // 3]))
+            acc.violation(sig, {"prelude": pr, "unit": list(unit), "case": list(c)}, detail,
+                          {"kind": c[0], "interval_mod_12": (c[2] % 12) if c[0] == "transpose" else None, "prelude": pr})
+    acc.sample({"prelude": pr, "case": list(cases[len(cases) // 3])})
 
 
 def replay(case, ctx):
-    return check_case(tuple(case), ctx)
+    """replays the prelude and then the unit's cases up to and including the failing one (call order may matter);
+    run in a brand-new process by the engine"""
+    prelude(case["prelude"])
+    target = tuple(case["case"])
+    out = []
+    for c in cases_of(tuple(case["unit"])):
+        res = check_case(c, ctx)
+        if tuple(c) == target:
+            out = res
+            break
+    return out
